@@ -344,8 +344,10 @@ func (ex *Exec) addObl(kind string, label string, guard, goal Term, pos token.Po
 	o := &Obligation{Name: name, Kind: kind, Func: ex.top.fname, Mark: ex.c.mark(), Guard: guard, Goal: goal,
 		Pos: ex.v.posStr(pos), Text: text, Safety: safety, Ctx: ex.c, Inputs: ex.top.inputs}
 	*ex.obls = append(*ex.obls, o)
-	if safety {
+	if safety || kind == "overflow" || kind == "fconv" {
 		// execution continues past this point only if the check passed
+		// (overflow / conversion obligations: later obligations are stated
+		// for the case that this one holds; it is reported on its own)
 		ex.c.assume(imp(guard, goal))
 	}
 	return o
